@@ -17,7 +17,7 @@ Your task: write a realistic change (a plausible bug a maintainer could introduc
 
 Also write a demonstration: a new integration test file {wt}/tests/seeded_{pid.lower()}{variant}_demo.rs (or, if easier, a small example program) that FAILS with your change applied and PASSES without it (check both: `git stash` / `git stash pop` of the src change, or apply/revert the patch). The demonstration should use the crate's public API (crate name `inputlayer`).
 
-Then check that the existing tests still pass with your change: at least `cargo test --offline --lib` plus the integration tests that look related to the code you touched (`cargo test --offline --test <name>`). Running the whole suite takes long (it has ~3200 tests in 32 binaries); run as much as you reasonably can in about 20 minutes and say exactly what you ran. If an existing test fails because of your change, pick a different change.
+Then check that the existing tests still pass with your change: at least `cargo test --offline --lib` plus the integration tests that look related to the code you touched (`cargo test --offline --test <name>`). Running the whole suite takes long (it has ~3200 tests in 32 binaries) and every integration-test binary costs ~1 GB of disk in your target directory, and disk is scarce on this shared machine: run `cargo test --offline --lib` plus AT MOST FOUR integration-test binaries (the ones most related to your change), keep your target directory under ~12 GB (check with `du -sh`), and say exactly what you ran. The first build may take 20+ minutes because the machine is busy; be patient and avoid needless rebuilds. If an existing test fails because of your change, pick a different change.
 
 When done, write these files:
   {wt}/seed/patch.diff      — `git diff` of your source change ONLY (src/ files; not the demo test)
